@@ -96,8 +96,14 @@ def _replay_all(rep, recs, procs, scratch):
     jobs.append((scratch, ch))
   results = []
   if procs <= 1:
-    for j in jobs:
-      results.extend(_work(j))
+    global _ENV
+    try:
+      for j in jobs:
+        results.extend(_work(j))
+    finally:
+      if _ENV is not None:
+        _ENV.close()        # restore the spies installed in this process
+        _ENV = None
   else:
     ctx = multiprocessing.get_context('fork')
     pool = ctx.Pool(procs)
